@@ -18,6 +18,8 @@ def _truncated_exponential_(rate, T):
     r'''returns a number between 0 and T from an
     exponential distribution conditional on the outcome being between 0 and T'''
     t = random.expovariate(rate)
+    if t<T: #also covers T = Inf, where L*T below would be nan
+        return t
     L = int(t/T)
     return t - L*T
    
@@ -1927,7 +1929,11 @@ def _trans_and_rec_time_Markovian_const_trans_(node, sus_neighbors, tau, rec_rat
     commented out the more "sophisticated" approach.
     '''
     
-    duration = random.expovariate(rec_rate_fxn(node))
+    rec_rate = rec_rate_fxn(node)
+    if rec_rate>0:
+        duration = random.expovariate(rec_rate)
+    else:
+        duration = float('Inf')
 
         
     trans_prob = 1-np.exp(-tau*duration)
